@@ -803,8 +803,69 @@ func (P *Prog) runsOnlyUnderTestFunc(fn *ssa.Function, funcField *types.Var, dep
 
 // ---------- release ----------
 
+// releaseElemSummaries: elem[f][i] = f releases objects it read out of its parameter i (the issues of a list or of a
+// map of lists handed to a Collect helper), directly or through another such function.
+func (P *Prog) releaseElemSummaries(sums map[*ssa.Function]map[int]bool) map[*ssa.Function]map[int]bool {
+	elem := map[*ssa.Function]map[int]bool{}
+	changed := true
+	for changed {
+		changed = false
+		for _, fn := range P.Funcs {
+			if !inModule(funcPkgPath(fn)) || fn.Blocks == nil || len(fn.Params) == 0 {
+				continue
+			}
+			mark := func(v ssa.Value, derivedOnly bool) {
+				for i, p := range fn.Params {
+					if derivedOnly && cvi(v) == ssa.Value(p) {
+						continue
+					}
+					switch p.Type().Underlying().(type) {
+					case *types.Slice, *types.Map, *types.Array:
+					default:
+						continue
+					}
+					for _, rt := range P.rootsOf(v) {
+						if rt.kind == rkParam && rt.v == ssa.Value(p) {
+							if elem[fn] == nil {
+								elem[fn] = map[int]bool{}
+							}
+							if !elem[fn][i] {
+								elem[fn][i] = true
+								changed = true
+							}
+						}
+					}
+				}
+			}
+			eachInstr(fn, func(_ *ssa.BasicBlock, _ int, in ssa.Instruction) {
+				ci := callOf(in)
+				if ci == nil {
+					return
+				}
+				if isSyncPoolMethod(ci, "Put") {
+					mark(ci.instr.Common().Args[1], true)
+					return
+				}
+				if ci.static == nil {
+					return
+				}
+				for k, a := range ci.args() {
+					if sums[ci.static] != nil && sums[ci.static][k] {
+						mark(a, true)
+					}
+					if elem[ci.static] != nil && elem[ci.static][k] {
+						mark(a, false)
+					}
+				}
+			})
+		}
+	}
+	return elem
+}
+
 func (P *Prog) checkRelease(r *Result) {
 	sums := P.releaseSummaries()
+	elemSums := P.releaseElemSummaries(sums)
 	// a function may also release what a *field* of its parameter holds (`ExecCtx.Free` freeing the issue collector it
 	// was constructed with): fieldRel[f][i] = the fields of parameter i whose value f releases; ctorStore[g][F] = the
 	// parameter of constructor g that ends up in field F of the object g returns. Together: `ctx := NewExecCtx(errs, ..);
@@ -934,6 +995,27 @@ func (P *Prog) checkRelease(r *Result) {
 						rels = append(rels, rel{in, b, i, cvi(ci.args()[0]), deferred, "interface " + ci.invoke.Name()})
 						break
 					}
+				}
+			}
+		})
+		// a container whose elements a callee releases (`CollectList(l)`): nothing may read it afterwards
+		eachInstr(fn, func(b *ssa.BasicBlock, i int, in ssa.Instruction) {
+			ci := callOf(in)
+			if ci == nil || ci.static == nil || elemSums[ci.static] == nil {
+				return
+			}
+			if _, isCall := in.(*ssa.Call); !isCall {
+				return
+			}
+			for k, a := range ci.args() {
+				if !elemSums[ci.static][k] {
+					continue
+				}
+				c := fmt.Sprintf("%s#release-elements:%s(%s)", fname(fn), fname(ci.static), relObjName(cvi(a)))
+				if use := laterUse(fn, b, i, cvi(a)); use != nil {
+					r.bad("C07/release", c, P.ipos(in), fmt.Sprintf("the objects held by this container are released to their pool by %s and the container is read afterwards (use at %s: %s): what is read then belongs to whoever took the objects out of the pool", fname(ci.static), P.ipos(use), shortName(use.String())))
+				} else {
+					r.ok("C07/release", c, P.ipos(in), "the container is not used after its elements were released")
 				}
 			}
 		})
